@@ -40,7 +40,10 @@ func qcolJSON(c *compiler.Column) interface{} {
 	if c == nil {
 		return nil
 	}
-	j := J{"name": c.Name, "dataType": c.DataType, "notNull": c.NotNull, "isArray": c.IsArray}
+	j := J{"name": c.Name, "dataType": c.DataType, "notNull": c.NotNull, "isArray": c.IsArray, "length": -1}
+	if c.Length != nil {
+		j["length"] = *c.Length
+	}
 	if c.Table != nil {
 		j["table"] = J{"catalog": c.Table.Catalog, "schema": c.Table.Schema, "name": c.Table.Name}
 	} else {
@@ -204,6 +207,7 @@ func analyzeStatement(engine, schema, query string, positional bool) (res analys
 		ej = []J{}
 	}
 	res.In["catalog"] = catalogForModel(c.Catalog(), raw2)
+	res.In["env"] = typeEnvOf(engine, c.Catalog())
 	res.In["ast"] = astJ
 	res.In["names"] = nm
 	res.In["namedEdits"] = ej
@@ -245,5 +249,33 @@ func analyzeStatement(engine, schema, query string, positional bool) (res analys
 		cs = []interface{}{}
 	}
 	res.Impl = J{"err": "", "params": ps, "columns": cs, "sql": hx(q.SQL), "name": q.Name, "cmd": q.Cmd}
+	// the embedded SQL re-parsed by the engine's real parser (C02 / C07 judge THAT statement)
+	if est, err := parseWith(engine, strings.TrimSpace(q.SQL)+";"); err == nil && len(est) == 1 {
+		ej, _ := serializeAST(est[0].Raw)
+		res.Impl["embAst"] = ej
+	} else {
+		res.Impl["embAst"] = nil
+		if err != nil {
+			res.Impl["embErr"] = err.Error()
+		}
+	}
 	return
+}
+
+// typeEnvOf: what goType reads from the catalog (C09's TypeEnv), for the Go-level clauses of C05 / C06
+func typeEnvOf(engine string, c *catalog.Catalog) J {
+	var schemas []J
+	for _, s := range c.Schemas {
+		types := []J{}
+		for _, t := range s.Types {
+			switch ty := t.(type) {
+			case *catalog.Enum:
+				types = append(types, J{"kind": "enum", "name": ty.Name})
+			case *catalog.CompositeType:
+				types = append(types, J{"kind": "composite", "name": ty.Name})
+			}
+		}
+		schemas = append(schemas, J{"name": s.Name, "types": types})
+	}
+	return J{"engine": engine, "default": c.DefaultSchema, "schemas": schemas, "overrides": []J{}, "rename": [][2]string{}}
 }
